@@ -120,5 +120,11 @@ def obligations(tier, rng):
     for f in [('eventually_t', ('not', X), 0, 1), ('once', ('always_t', X, 0, 1)), ('always_t', ('eventually_t', X, 0, 1), 0, 1),
               ('and', ('eventually_t', X, 0, 1), ('once', X))]:
         out.append(ob('C16', 'ct', 'ct/nested/%s/n=2+1' % text(f), f=f, ns=[2], ext=[1], max_paths=60000, wall=(300 if quick else 1500)))
+    for k1 in ('once', 'historically'):
+        for k2 in ('once', 'historically'):
+            for f in [(k1, (k2, X)), (k1, ('implies', ('geq', X, ('const', 3.0)), (k2, ('geq', Y, ('const', 3.0))))), (k1, ('or', X, (k2, Y)))]:
+                two = len(variables(f)) > 1
+                out.append(ob('C16', 'ct', 'ct/nested-past/%s' % text(f), f=f, ns=[2, 2] if two else [3], ext=[1, 1] if two else [1],
+                              max_paths=60000, wall=(300 if quick else 1500)))
     seen = set()
     return [o for o in out if not (o['oid'] in seen or seen.add(o['oid']))]
